@@ -17,6 +17,7 @@ Local Open Scope list_scope.
 Section Summary.
   Variable V : Type.
   Variable bin : binop -> V -> V -> V.
+  Variable un : unop -> V -> V.
   Variable resets : bool.                        (* subsamples resets `_instance` of the copy (4da3fbc) *)
   Notation node := (node V).
 
@@ -99,7 +100,7 @@ Section Summary.
   Definition instance_value (s : summary) : option (ival V) :=
     match sm_inst s with
     | Some i => Some i
-    | None => option_map (inst_from_vector V bin (sm_model s)) (max_vector s)
+    | None => option_map (inst_from_vector V bin un (sm_model s)) (max_vector s)
     end.
 
   Definition read_instance (s : summary) : summary :=
@@ -247,7 +248,7 @@ Section Summary.
   (* ---------------------------------------------------------------------------------------- *)
   (* a cached instance is the summary's own model at the summary's own best-fit vector *)
   Definition inst_ok (s : summary) : Prop :=
-    forall i, sm_inst s = Some i -> option_map (inst_from_vector V bin (sm_model s)) (max_vector s) = Some i.
+    forall i, sm_inst s = Some i -> option_map (inst_from_vector V bin un (sm_model s)) (max_vector s) = Some i.
 
   Lemma fill_vector : forall s, max_vector (fill s) = max_vector s.
   Proof. intros s. reflexivity. Qed.
@@ -258,14 +259,14 @@ Section Summary.
   Lemma fill_inst_ok : forall s, inst_ok s -> inst_ok (fill s).
   Proof.
     intros s H i Hi. change (sm_inst s = Some i) in Hi.
-    change (option_map (inst_from_vector V bin (sm_model s)) (max_vector (fill s)) = Some i).
+    change (option_map (inst_from_vector V bin un (sm_model s)) (max_vector (fill s)) = Some i).
     rewrite fill_vector. apply H; exact Hi.
   Qed.
 
   Lemma read_instance_inst_ok : forall s, inst_ok s -> inst_ok (read_instance s).
   Proof.
     intros s H i Hi. change (instance_value s = Some i) in Hi.
-    change (option_map (inst_from_vector V bin (sm_model s)) (max_vector (read_instance s)) = Some i).
+    change (option_map (inst_from_vector V bin un (sm_model s)) (max_vector (read_instance s)) = Some i).
     rewrite read_instance_vector. revert Hi. unfold instance_value.
     destruct (sm_inst s) as [j|] eqn:E; intro Hi.
     - inversion Hi; subst. apply H; exact E.
@@ -283,7 +284,7 @@ Section Summary.
   Qed.
 
   Lemma inst_ok_value : forall s, inst_ok s ->
-    instance_value s = option_map (inst_from_vector V bin (sm_model s)) (max_vector s).
+    instance_value s = option_map (inst_from_vector V bin un (sm_model s)) (max_vector s).
   Proof.
     intros s H. unfold instance_value.
     destruct (sm_inst s) as [i|] eqn:E; [symmetry; apply H; exact E | reflexivity].
@@ -294,7 +295,7 @@ Section Summary.
      child model at the child's own best-fit vector *)
   Lemma child_instance_own : resets = true -> forall s before child after c,
     Forall is_read after -> run (before ++ OSub child :: after) s = Some c ->
-    instance_value c = option_map (inst_from_vector V bin child) (max_vector c) /\ sm_model c = child.
+    instance_value c = option_map (inst_from_vector V bin un child) (max_vector c) /\ sm_model c = child.
   Proof.
     intros Hres s before child after c Ha Hr.
     rewrite run_app in Hr. destruct (run before s) as [s1|]; [|discriminate]. simpl in Hr.
@@ -336,7 +337,7 @@ Definition session_ops (pre_read pre_inst mid_read : bool) (chain : list (node f
 Definition check_scase (c : scase) : bool :=
   match c with
   | SCase joint kw pre_read pre_inst mid_read chain vec inst =>
-      let final := run float fbin subsamples_resets_instance (session_ops pre_read pre_inst mid_read chain)
+      let final := run float fbin funop subsamples_resets_instance (session_ops pre_read pre_inst mid_read chain)
                        (fresh float joint kw None) in
       let got := match final with Some s => max_vector float s | None => None end in
       match got, vec with
@@ -347,7 +348,7 @@ Definition check_scase (c : scase) : bool :=
       && match inst with
          | None => true
          | Some o =>
-             match (match final with Some s => instance_value float fbin s | None => None end), o with
+             match (match final with Some s => instance_value float fbin funop s | None => None end), o with
              | Some a, Some b => ival_eqb a b
              | None, None => true
              | _, _ => false
@@ -367,13 +368,14 @@ Definition wit_joint : node nat :=
   NColl [("m", wit_child); ("centre", NPrior 1); ("sigma", NPrior 0)].
 Definition wit_kw : list (path * nat) := [(["m"; "centre"], 4); (["m"; "sigma"], 7)].
 Definition wit_bin (o : binop) (a b : nat) : nat := a.
+Definition wit_un (o : unop) (a : nat) : nat := a.
 
 (* before 4da3fbc (resets = false) the statement of child_instance_own failed: *)
 Lemma child_instance_legacy_refuted :
   exists (s : summary nat) (before : list (op nat)) (child : node nat) (after : list (op nat)) (c : summary nat),
     coherent nat s /\ sm_inst nat s = None /\ Forall (is_read nat) before /\ Forall (is_read nat) after /\
-    run nat wit_bin false (before ++ OSub nat child :: after) s = Some c /\
-    instance_value nat wit_bin c <> option_map (inst_from_vector nat wit_bin child) (max_vector nat c).
+    run nat wit_bin wit_un false (before ++ OSub nat child :: after) s = Some c /\
+    instance_value nat wit_bin wit_un c <> option_map (inst_from_vector nat wit_bin wit_un child) (max_vector nat c).
 Proof.
   exists (fresh nat wit_joint wit_kw None), [OInstance nat], wit_child, [].
   eexists. split; [left; reflexivity|]. split; [reflexivity|].
